@@ -130,6 +130,11 @@ def run_qap(k, prog):
         f.flush()
     wires = read_wires(opt.get_wire_file(), k.env)
     ios = read_wires(opt.get_io_file(), k.env)
+    for path, what in ((opt.get_wire_file(), "wire"), (opt.get_io_file(), "i/o")):
+        nms = [ln.partition(":")[0].strip() for ln in open(path) if ln.strip() and ln.strip()[0] != "#"] if os.path.exists(path) else []
+        obs.append(("every %s name is given a value once (%d names)" % (what, len(nms)), len(nms) == len(set(nms))))
+    if getattr(prog, "expected_pubs", None) is not None:
+        obs.append(("the i/o file has one entry per public value (%d)" % prog.expected_pubs, len(ios) == prog.expected_pubs))
     recs = parse_eqs(opt.get_eqs_file())
 
     def val(w):
@@ -294,7 +299,66 @@ def p_scaled_result(k, be):
 p_scaled_result.expected_glue = [2]
 
 
-PROGRAMS = dict(scaled=(p_scaled_result, ("x",)), inconsistent=(p_inconsistent, ("x",)), main=(p_main, ("x", "y")), call1=(p_call1, ("x",)), call2=(p_call2, ("x", "y")),
+def p_inconsistent_even(k, be):
+    def mk(reps):
+        @be.subqap("chk")
+        def chk(a):
+            s = a * a
+            t = s + 0
+            for _ in range(reps):
+                t.assert_eq(s)          # the very same equation line, an even number of times
+            return s
+        return chk
+    x = k.S("x")
+    (mk(0)(x) + mk(2)(x)).val()
+p_inconsistent_even.expect_inconsistent = True
+
+
+def p_inconsistent_extra(k, be):
+    def mk(extra):
+        @be.subqap("chk2")
+        def chk2(a):
+            s = a * a
+            if extra:
+                (s * a).assert_eq(a * a * a)
+            return s
+        return chk2
+    x = k.S("x")
+    (mk(False)(x) + mk(True)(x)).val()
+p_inconsistent_extra.expect_inconsistent = True
+
+
+def p_pub_around_call(k, be):
+    cube = _cube(be)
+    x = k.S("x")
+    a = k.Pub("y")                       # published before the call
+    (x + a).val()
+    c = cube(x)                          # the sub-circuit publishes nothing
+    (c + 1).val()                        # published after the call, twice
+    d = cube(c)
+    (d * a).val()
+p_pub_around_call.expected_glue = [2, 2]
+p_pub_around_call.expected_pubs = 4
+
+
+def p_pub_inside_call(k, be):
+    @be.subqap("leak")
+    def leak(a):
+        (a * a).val()                    # the sub-circuit itself publishes
+        return a + 1
+    x = k.S("x")
+    (x * 2).val()
+    (x * 3).val()
+    r = leak(x)
+    (r * x).val()
+    leak(r).val()
+p_pub_inside_call.expected_glue = [2, 2]
+p_pub_inside_call.expected_pubs = 6
+
+
+PROGRAMS = dict(inconsistent_even=(p_inconsistent_even, ("x",)), inconsistent_extra=(p_inconsistent_extra, ("x",)),
+                pub_around_call=(p_pub_around_call, ("x", "y")), pub_inside_call=(p_pub_inside_call, ("x",)),
+                scaled=(p_scaled_result, ("x",)), inconsistent=(p_inconsistent, ("x",)), main=(p_main, ("x", "y")), call1=(p_call1, ("x",)), call2=(p_call2, ("x", "y")),
                 call3_list=(p_call3_list, ("x", "y")), nested=(p_nested, ("x",)))
 
 
